@@ -14,9 +14,43 @@ def gen(prop, title, imports, items, out, extra=""):
         if stmt.startswith(':'):
             txt += f"(* {comment} *)\nTheorem {prop}_{name} {stmt}\nProof. exact {name}. Qed.\nPrint Assumptions {prop}_{name}.\n\n"
         else:
-            binders, rest = stmt.split(':', 1)
+            depth = 0
+            for pos, ch in enumerate(stmt):
+                if ch in '({[':
+                    depth += 1
+                elif ch in ')}]':
+                    depth -= 1
+                elif ch == ':' and depth == 0:
+                    break
+            binders, rest = stmt[:pos], stmt[pos + 1:]
             # binders like "c k" or "(c : cell) k"
-            names = re.findall(r'\(?\s*([A-Za-z_][\w\']*)', re.sub(r':[^)]*\)', ')', binders))
+            names = []
+            depth, cur = 0, ''
+            groups = []
+            for ch in binders:
+                if ch == '(':
+                    depth += 1
+                    if depth == 1:
+                        cur = ''
+                        continue
+                elif ch == ')':
+                    depth -= 1
+                    if depth == 0:
+                        groups.append(cur)
+                        cur = ''
+                        continue
+                if depth >= 1:
+                    cur += ch
+                elif not ch.isspace():
+                    cur += ch
+                elif cur:
+                    groups.append(cur)
+                    cur = ''
+            if cur:
+                groups.append(cur)
+            for g in groups:
+                head = g.split(':', 1)[0]
+                names += re.findall(r"[A-Za-z_][\w']*", head)
             args = ' '.join(names)
             txt += f"(* {comment} *)\nTheorem {prop}_{name} {binders.strip()} :{rest}\nProof. exact ({name} {args}). Qed.\nPrint Assumptions {prop}_{name}.\n\n"
     open(out, 'w').write(txt)
